@@ -27,12 +27,32 @@
 namespace celma { namespace common {
 
 
+namespace detail {
+
+
+/// Holds the activity flag of a ManagedThread. It is a separate base class,
+/// listed before std::thread, so that the flag is initialised before the
+/// std::thread base class starts the thread that sets and clears it.
+/// @since  x.yz, 01.10.2026
+class ManagedThreadFlag
+{
+protected:
+   /// Flag, set by the thread before the thread function is executed, cleared
+   /// when the thread function returnes, i.e. finished its work.
+   std::atomic< bool>  mActive{ false};
+
+}; // ManagedThreadFlag
+
+
+} // namespace detail
+
+
 /// Small helper class that provides the information if the thread is still
 /// active or if it finished its work.<br>
 /// When this object is destroyed, it calls \c join(), so the calling
 /// application does not need to do that.
 /// @since  012, 19.01.2017
-class ManagedThread final: public std::thread
+class ManagedThread final: private detail::ManagedThreadFlag, public std::thread
 {
 public:
    /// Constructor, creates the thread which immediately starts its work.
@@ -66,11 +86,6 @@ public:
 
    // move-assignment is also not allowed
    ManagedThread& operator =( ManagedThread&&) = delete;
-
-private:
-   /// Flag, set by the thread before the thread function is executed, cleared
-   /// when the thread function returnes, i.e. finished its work.
-   std::atomic< bool>  mActive{ false};
 
 }; // ManagedThread
 
